@@ -1,0 +1,63 @@
+//go:build verif
+
+// Contracts for package kvstore, read by /verif/govc. Comments only.
+package kvstore
+
+// isop(E, j, k): entry j of the listing E is an operation on key k
+//@ spec func isop(E Slice<Iface>, j Int, k Str) Bool = opHasKey(E[j]) && opKey(E[j]) == k
+
+// UpdateIndex: after a successful call the index equals the last-writer-wins replay of the log's total
+// order: for every key, the newest operation on it decides (PUT: present with that value, DEL: absent);
+// a key no operation mentions is absent. The right-hand side does not depend on the previous index
+// (C01: the view is a function of the log only).
+//@ func (*kvIndex).UpdateIndex
+//@   props C06 C01
+//@   flag nilcalls
+//@   requires oplog != nil && i.index != nil
+//@   ghost E := valsOf(oplog)
+//@   ghost n := len(valsOf(oplog))
+//@   requires forall j Int :: 0 <= j && j < n ==> (E[j] != nil ==> ref(E[j]) != 0)
+//@   requires forall j Int :: 0 <= j && j < n && opOK(E[j]) && opHasKey(E[j]) ==> opKind(E[j]) == "PUT" || opKind(E[j]) == "DEL"
+//@   requires forall k Str :: (k in i.index) ==> (exists j Int :: 0 <= j && j < n && isop(E, j, k))
+//@   loop 1 invariant len(entries) == n && size == n && entries == E
+//@   loop 1 invariant forall j Int :: n - idx <= j && j < n ==> opOK(E[j])
+//@   loop 1 invariant forall k Str :: (k in handled) <==> (exists j Int :: n - idx <= j && j < n && isop(E, j, k))
+//@   loop 1 invariant forall k Str :: !(k in handled) ==> ((k in i.index) == old(k in i.index)) && i.index[k] == old(i.index[k])
+//@   loop 1 invariant forall k Str :: (k in handled) ==> (exists w Int :: n - idx <= w && w < n && isop(E, w, k) && (forall j Int :: w < j && j < n ==> !isop(E, j, k)) && (opKind(E[w]) == "PUT" ==> (k in i.index) && i.index[k] == opValue(E[w])) && (opKind(E[w]) == "DEL" ==> !(k in i.index)))
+//@   assert @ after loop 1: forall k Str :: !(k in handled) ==> !(exists j Int :: 0 <= j && j < n && isop(E, j, k))
+//@   assert @ after loop 1: forall k Str :: !(k in handled) ==> !old(k in i.index)
+//@   assert @ after loop 1: forall k Str :: !(k in handled) ==> !(k in i.index)
+//@   ensures result == nil ==> (forall j Int :: 0 <= j && j < n ==> opOK(E[j]))
+//@   ensures result == nil ==> (forall k Str :: (exists j Int :: 0 <= j && j < n && isop(E, j, k)) ==> (exists w Int :: 0 <= w && w < n && isop(E, w, k) && (forall j Int :: w < j && j < n ==> !isop(E, j, k)) && (opKind(E[w]) == "PUT" ==> (k in i.index) && i.index[k] == opValue(E[w])) && (opKind(E[w]) == "DEL" ==> !(k in i.index))))
+//@   ensures result == nil ==> (forall k Str :: !(exists j Int :: 0 <= j && j < n && isop(E, j, k)) ==> !(k in i.index))
+//@   ensures result != nil ==> (exists j Int :: 0 <= j && j < n && !opOK(E[j]))
+
+// Get on the index returns the stored bytes (a nil slice when the key is absent), boxed.
+//@ func (*kvIndex).Get
+//@   props C06
+//@   ensures typeis(result, "[]byte") && unbox(result, "Slice<Int>") == i.index[key]
+//@   modifies nothing
+
+// Store-level Get: the value of the key in the current view, nil when absent.
+//@ func (*orbitDBKeyValue).Get
+//@   props C06
+//@   flag nilcalls
+//@   requires typeis(o.BaseStore.index, "*kvstore.kvIndex") && ref(o.BaseStore.index) != 0
+//@   ghost v := ptr(o.BaseStore.index, "kvstore.kvIndex").index[key]
+//@   ensures result1 == nil && isnil(result) == isnil(v) && (!isnil(v) ==> result == v)
+//@   modifies nothing
+
+// All returns a fresh map equal to the current view and leaves the view unchanged.
+//@ func (*orbitDBKeyValue).All
+//@   props C06
+//@   flag nilcalls
+//@   requires typeis(o.BaseStore.index, "*kvstore.kvIndex") && ref(o.BaseStore.index) != 0
+//@   ghost X := ptr(o.BaseStore.index, "kvstore.kvIndex").index
+//@   loop 1 invariant copiedIndex != nil && copiedIndex != X && idx.index == X
+//@   loop 1 invariant forall k Str :: (k in X) == old(k in X) && X[k] == old(X[k])
+//@   loop 1 invariant forall k Str :: $seen[k] ==> (k in X)
+//@   loop 1 invariant forall k Str :: (k in copiedIndex) == $seen[k]
+//@   loop 1 invariant forall k Str :: $seen[k] ==> copiedIndex[k] == X[k]
+//@   ensures result != nil && result != X
+//@   ensures forall k Str :: (k in result) == (k in X) && ((k in X) ==> result[k] == X[k])
+//@   ensures forall k Str :: (k in X) == old(k in X) && X[k] == old(X[k])
